@@ -555,29 +555,43 @@ let () =
                        (the never-abandoned model), and the const operands must denote the same sets after the call.  The
                        states are then compared with the transcription run under the `always' oracle. *)
                     hur := never;
-                    let _, vs_exact = run () in
+                    let upd_never, vs_exact = run () in
                     hur := always;
-                    let upd, _ = run () in
-                    (* which operands does the transcription itself enlarge (hurry-up collapse in omega_reduce() const)? *)
+                    let upd, vs_always = run () in
+                    (* which operands does the transcription collapse under abandonment (hurry-up branch of omega_reduce() const)?
+                       structurally: the sequence it leaves differs from the one the never-abandoned run leaves *)
                     let collapsed = List.filter (fun (i, (o : obj)) ->
-                      let pre = get i in
-                      (match timed (fun () -> unions_equiv (nb pre) (systems pre.s) (systems o.s)) None with Some false -> true | _ -> false)) upd in
-                    (* and which operands did the implementation change? *)
+                      match List.assoc_opt i upd_never with
+                      | Some (o' : obj) -> o.s.seq0 <> o'.s.seq0
+                      | None -> true) upd in
+                    (* which operands did the implementation change as sets? *)
                     let changed = List.filter (fun st ->
                       match (try Some (get st.sid) with Syntax _ -> None) with
                       | Some pre when pre.dim = st.sdim ->
                           (match timed (fun () -> unions_equiv (nb pre) (systems pre.s) (List.map (fun d -> sys_of_cons d.dcons) st.djs)) None with Some false -> true | _ -> false)
                       | _ -> false) sts in
-                    let wrong = List.exists (fun (_, v) -> match v with Fail _ -> true | _ -> false) vs_exact in
-                    if changed <> [] && List.for_all (fun st -> List.exists (fun (i, _) -> i = st.sid) collapsed) changed then
-                      (* one root cause: Powerset::omega_reduce() const takes its hurry-up branch inside a const method *)
-                      report "hurry/const-operand-collapsed" line
-                        (Fail (Printf.sprintf "const operand(s) %s denote a larger set after the call (omega_reduce() const collapsed them under abandonment, model agrees)%s"
-                                 (String.concat "," (List.map (fun st -> string_of_int st.sid) changed))
-                                 (if wrong then "; the answer differs from the answer on the values before the call" else "")))
-                    else begin
+                    let is_model k = (let n = String.length k in n > 6 && String.sub k (n - 6) 6 = "_model") in
+                    let failed vs = List.filter (fun (_, v) -> match v with Fail _ -> true | _ -> false) vs in
+                    if collapsed = [] then begin
+                      (* the abandon flag had no effect on the transcription: judged like the ordinary call *)
                       List.iter (fun st -> report (qn ^ "/hurry-const-changed") (line ^ " @obj " ^ string_of_int st.sid) (Fail "a const operand denotes a different set after the call")) changed;
                       List.iter (fun (k, v) -> report (qn ^ "/hurry-" ^ k) line v) vs_exact
+                    end else begin
+                      (* the transcription run under `always' must predict the implementation's answer ... *)
+                      List.iter (fun (k, v) -> if is_model k then report (qn ^ "/hurry-always-" ^ k) line v) vs_always;
+                      (* ... operands the transcription does not collapse must keep their denotation ... *)
+                      List.iter (fun st -> if not (List.exists (fun (i, _) -> i = st.sid) collapsed) then
+                        report (qn ^ "/hurry-const-changed") (line ^ " @obj " ^ string_of_int st.sid) (Fail "a const operand denotes a different set after the call")) changed;
+                      (* ... and whatever then differs from the never-abandoned call (operand enlarged, answer different from the answer on
+                         the values before the call) is the ONE root cause: omega_reduce() const collapsed a const operand *)
+                      let wrong = failed vs_exact in
+                      let ch = List.filter (fun st -> List.exists (fun (i, _) -> i = st.sid) collapsed) changed in
+                      if (wrong <> [] || ch <> []) && failed (List.filter (fun (k, _) -> is_model k) vs_always) = [] then
+                        report "hurry/const-operand-collapsed" line
+                          (Fail (Printf.sprintf "omega_reduce() const collapsed operand(s) %s under abandonment (model agrees)%s%s"
+                                   (String.concat "," (List.map (fun (i, _) -> string_of_int i) collapsed))
+                                   (if ch <> [] then "; they denote a larger set after the call" else "")
+                                   (if wrong <> [] then "; the answer differs from the never-abandoned answer on the values before the call (" ^ String.concat "," (List.map fst wrong) ^ ")" else "")))
                     end;
                     List.iter (fun (i, o) -> Hashtbl.replace pool i o) upd;
                     judge_states ~touched:(List.map fst upd) qn line sts
